@@ -7,10 +7,12 @@ package logcheck
 import (
 	"encoding/json"
 	"fmt"
+	"io"
 	"os"
 	"sort"
 	"strings"
 	"testing"
+	"time"
 
 	"github.com/rs/zerolog"
 	"github.com/rs/zerolog/vsched"
@@ -33,6 +35,7 @@ type Case struct {
 	T       int    `json:"threads"`
 	K       int    `json:"per_thread"`
 	Sync    bool   `json:"sync_writer,omitempty"`
+	Dest    string `json:"dest,omitempty"` // "" plain writer | console (ConsoleWriter, pooled render buffer) | multi (MultiLevelWriter over two writers)
 	N       uint32 `json:"sampler_n,omitempty"`
 	Kind    string `json:"schedule_kind"`
 	Bytes   []byte `json:"bytes,omitempty"`
@@ -104,11 +107,19 @@ var shapes = []func(ls []*zerolog.Logger, t, i int){
 	func(ls []*zerolog.Logger, t, i int) {
 		ls[1].Warn().Int("t", t).Int("i", i).Dict("d", zerolog.Dict().Str("a", "b").Int("n", i)).Array("arr", zerolog.Arr().Str("x").Int(t)).Msg("nested")
 	},
-	func(ls []*zerolog.Logger, t, i int) { ls[2].Error().Int("t", t).Int("i", i).Object("o", &obj{i}).Msg("hooked") },
-	func(ls []*zerolog.Logger, t, i int) { ls[0].Info().Int("t", t).Int("i", i).Str("pad", strings.Repeat("P", 600)).Msg("above 500") },
-	func(ls []*zerolog.Logger, t, i int) { ls[3].Debug().Int("t", t).Int("i", i).Msg("discarded by the first hook") },
+	func(ls []*zerolog.Logger, t, i int) {
+		ls[2].Error().Int("t", t).Int("i", i).Object("o", &obj{i}).Msg("hooked")
+	},
+	func(ls []*zerolog.Logger, t, i int) {
+		ls[0].Info().Int("t", t).Int("i", i).Str("pad", strings.Repeat("P", 600)).Msg("above 500")
+	},
+	func(ls []*zerolog.Logger, t, i int) {
+		ls[3].Debug().Int("t", t).Int("i", i).Msg("discarded by the first hook")
+	},
 	func(ls []*zerolog.Logger, t, i int) { ls[3].Info().Int("t", t).Int("i", i).Msg("not discarded") },
-	func(ls []*zerolog.Logger, t, i int) { ls[1].Info().Int("t", t).Int("i", i).Str("pad", strings.Repeat("Q", 70000)).Msg("above 64K") },
+	func(ls []*zerolog.Logger, t, i int) {
+		ls[1].Info().Int("t", t).Int("i", i).Str("pad", strings.Repeat("Q", 70000)).Msg("above 64K")
+	},
 }
 
 type recWriter struct {
@@ -137,8 +148,15 @@ func (w *recWriter) Write(p []byte) (int, error) {
 	return len(p), nil
 }
 
-func mkLoggers(w *recWriter, syncW bool) []*zerolog.Logger {
+func mkLoggers(ws []*recWriter, syncW bool, dest string) []*zerolog.Logger {
 	var l0 zerolog.Logger
+	var w io.Writer = ws[0]
+	switch dest {
+	case "console":
+		w = zerolog.ConsoleWriter{Out: ws[0], NoColor: true, TimeLocation: time.UTC}
+	case "multi":
+		w = zerolog.MultiLevelWriter(ws[0], ws[1])
+	}
 	if syncW {
 		l0 = zerolog.New(zerolog.SyncWriter(w))
 	} else {
@@ -154,17 +172,16 @@ func shapeOf(t, i int) int { return (t*3 + i*5) % len(shapes) }
 
 func runLog(c *Case, ch vsched.Chooser) (string, *vsched.Sched) {
 	// expected: each event alone, outside the scheduler
-	solo := &recWriter{}
-	sl := mkLoggers(solo, false)
+	solo := []*recWriter{{}, {}}
+	sl := mkLoggers(solo, false, c.Dest)
 	for t := 0; t < c.T; t++ {
 		for i := 0; i < c.K; i++ {
 			shapes[shapeOf(t, i)](sl, t, i)
 		}
 	}
-	want := append([]string{}, solo.got...)
-	w := &recWriter{yields: true}
-	s := vsched.Run(ch, 20000, false, func() {
-		ls := mkLoggers(w, c.Sync)
+	ws := []*recWriter{{yields: true}, {yields: true}}
+	s := vsched.Run(ch, 40000, false, func() {
+		ls := mkLoggers(ws, c.Sync, c.Dest)
 		done := 0
 		for t := 0; t < c.T; t++ {
 			t := t
@@ -180,21 +197,24 @@ func runLog(c *Case, ch vsched.Chooser) (string, *vsched.Sched) {
 	if s.Deadlock || s.StepLimit {
 		return fmt.Sprintf("logging threads did not finish (deadlock=%v, step bound=%v)", s.Deadlock, s.StepLimit), s
 	}
-	if w.mutated {
-		return "the byte slice handed to Write was modified before Write returned", s
-	}
-	if c.Sync && w.overlap {
-		return "SyncWriter let two calls overlap in the wrapped writer", s
-	}
-	got := append([]string{}, w.got...)
-	sort.Strings(got)
-	sort.Strings(want)
-	if len(got) != len(want) {
-		return fmt.Sprintf("destination received %d writes for %d emitted events", len(got), len(want)), s
-	}
-	for i := range got {
-		if got[i] != want[i] {
-			return fmt.Sprintf("received events differ from the events produced alone: got %.160q, want %.160q", got[i], want[i]), s
+	for k, w := range ws {
+		if w.mutated {
+			return "the byte slice handed to Write was modified before Write returned", s
+		}
+		if c.Sync && w.overlap {
+			return "SyncWriter let two calls overlap in the wrapped writer", s
+		}
+		got := append([]string{}, w.got...)
+		want := append([]string{}, solo[k].got...)
+		sort.Strings(got)
+		sort.Strings(want)
+		if len(got) != len(want) {
+			return fmt.Sprintf("destination %d received %d writes for %d emitted events", k, len(got), len(want)), s
+		}
+		for i := range got {
+			if got[i] != want[i] {
+				return fmt.Sprintf("destination %d: received events differ from the events produced alone: got %.160q, want %.160q", k, got[i], want[i]), s
+			}
 		}
 	}
 	return "", s
@@ -357,7 +377,7 @@ func run(c *Case, ch vsched.Chooser) (string, *vsched.Sched) {
 
 func fail(t interface{ Fatalf(string, ...interface{}) }, c *Case, msg string) {
 	ev.SaveReplay(prop+"-sched-"+os.Getenv("VERIF_JOB")+os.Getenv("VERIF_SHARD"), c)
-	fmt.Printf("VERIF-FAIL: [%s T%d K%d sync=%v N=%d] %s\n", c.What, c.T, c.K, c.Sync, c.N, msg)
+	fmt.Printf("VERIF-FAIL: [%s%s T%d K%d sync=%v N=%d] %s\n", c.What, c.Dest, c.T, c.K, c.Sync, c.N, msg)
 	t.Fatalf("%s", msg)
 }
 
@@ -382,6 +402,7 @@ func TestDFS(t *testing.T) {
 	for _, w := range whats() {
 		switch w {
 		case "log":
+			cfgs = append(cfgs, cfg{Case{What: w, T: 2, K: 2, Dest: "console"}, b}, cfg{Case{What: w, T: 2, K: 2, Dest: "multi"}, b})
 			cfgs = append(cfgs, cfg{Case{What: w, T: 2, K: 1}, 3}, cfg{Case{What: w, T: 2, K: 2}, b}, cfg{Case{What: w, T: 2, K: 2, Sync: true}, b}, cfg{Case{What: w, T: 3, K: 1}, b}, cfg{Case{What: w, T: 2, K: 3}, b})
 			if ev.Thorough() {
 				cfgs = append(cfgs, cfg{Case{What: w, T: 3, K: 2}, 2}, cfg{Case{What: w, T: 2, K: 4}, 2}, cfg{Case{What: w, T: 2, K: 2}, 3}, cfg{Case{What: w, T: 3, K: 2, Sync: true}, 2})
@@ -422,8 +443,8 @@ func TestDFS(t *testing.T) {
 				break
 			}
 		}
-		rec.Bulk(n, nt, fmt.Sprintf("dfs:%s T%d K%d", cf.c.What, cf.c.T, cf.c.K))
-		rec.Exhaustive(fmt.Sprintf("%s T%d K%d sync=%v N=%d: all %d schedules with <= %d preemptions", cf.c.What, cf.c.T, cf.c.K, cf.c.Sync, cf.c.N, n, cf.bound))
+		rec.Bulk(n, nt, fmt.Sprintf("dfs:%s%s T%d K%d", cf.c.What, cf.c.Dest, cf.c.T, cf.c.K))
+		rec.Exhaustive(fmt.Sprintf("%s%s T%d K%d sync=%v N=%d: all %d schedules with <= %d preemptions", cf.c.What, cf.c.Dest, cf.c.T, cf.c.K, cf.c.Sync, cf.c.N, n, cf.bound))
 		rec.Sample(map[string]interface{}{"config": cf.c, "preemption_bound": cf.bound, "schedules": n})
 	}
 }
@@ -433,6 +454,9 @@ func TestRapidSchedules(t *testing.T) {
 	rapid.Check(t, func(rt *rapid.T) {
 		c := &Case{What: rapid.SampledFrom(ws).Draw(rt, "what"), T: rapid.IntRange(2, 4).Draw(rt, "T"), K: rapid.IntRange(1, 5).Draw(rt, "K")}
 		c.Sync = rapid.Bool().Draw(rt, "sync")
+		if c.What == "log" {
+			c.Dest = rapid.SampledFrom([]string{"", "", "console", "multi"}).Draw(rt, "dest")
+		}
 		c.N = uint32(rapid.IntRange(0, 5).Draw(rt, "N"))
 		if rapid.Bool().Draw(rt, "pct") {
 			c.Kind, c.Seed, c.D = "pct", rapid.Uint64().Draw(rt, "seed"), rapid.IntRange(1, 3).Draw(rt, "d")
